@@ -43,7 +43,7 @@ func decideSign(x, eps float64) {
 func ZZ_C20_Delaunay() {
 	base := bases[zz.Choose("base", zz.Bound("BASES"))]
 	s := vector2.New(zz.Float64("s.x"), zz.Float64("s.y"))
-	at := zz.Choose("insertAt", len(base)+1)
+	at := len(base) - zz.Choose("insertAt", zz.Bound("POSITIONS")) // last position first
 	var pts []vector2.Float64
 	for i := 0; i <= len(base); i++ {
 		if i == at {
